@@ -310,6 +310,78 @@ def _forced_arithmetic(ctx, ri):
     return None
 
 
+def _installed_names(body):
+    """constant propagation over the module-level statements of rational.py: the set of method names installed on the class by
+    `_wrap_method(<name>)` / `setattr(<class>, <name>, ...)`, where the names are string constants or `'__%s__' % word` over the words
+    of a constant `"...".split()`, possibly collected in a module-level list first"""
+    env = {}            # name -> set of strings (a loop variable, or the elements of a list)
+    out = set()
+
+    def ev(e):
+        if isinstance(e, ast.Constant) and isinstance(e.value, str):
+            return {e.value}
+        if isinstance(e, ast.Name) and e.id in env:
+            return set(env[e.id])
+        if isinstance(e, ast.BinOp) and isinstance(e.op, ast.Mod) and const_str(e.left) is not None:
+            r = ev(e.right)
+            if r is not None:
+                try:
+                    return {const_str(e.left) % w for w in r}
+                except (TypeError, ValueError):
+                    return None
+        if isinstance(e, ast.Call) and isinstance(e.func, ast.Attribute) and e.func.attr == 'split' and const_str(e.func.value) is not None and not e.args:
+            return set(const_str(e.func.value).split())
+        if isinstance(e, (ast.List, ast.Tuple, ast.Set)):
+            acc = set()
+            for x in e.elts:
+                r = ev(x)
+                if r is None:
+                    return None
+                acc |= r
+            return acc
+        if isinstance(e, ast.ListComp) and len(e.generators) == 1 and isinstance(e.generators[0].target, ast.Name) and not e.generators[0].ifs:
+            it = ev(e.generators[0].iter)
+            if it is None:
+                return None
+            saved = env.get(e.generators[0].target.id)
+            env[e.generators[0].target.id] = it
+            r = ev(e.elt)
+            if saved is None:
+                env.pop(e.generators[0].target.id, None)
+            else:
+                env[e.generators[0].target.id] = saved
+            return r
+        return None
+
+    def run(stmts):
+        for st in stmts:
+            if isinstance(st, ast.For) and isinstance(st.target, ast.Name):
+                it = ev(st.iter)
+                if it is not None:
+                    env[st.target.id] = it
+                    run(st.body)
+            elif isinstance(st, ast.Assign) and len(st.targets) == 1 and isinstance(st.targets[0], ast.Name):
+                r = ev(st.value)
+                if r is not None:
+                    env[st.targets[0].id] = r
+            elif isinstance(st, ast.AugAssign) and isinstance(st.target, ast.Name) and isinstance(st.op, ast.Add):
+                r = ev(st.value)
+                if r is not None:
+                    env[st.target.id] = env.get(st.target.id, set()) | r
+            elif isinstance(st, ast.Expr) and isinstance(st.value, ast.Call):
+                c = st.value
+                if isinstance(c.func, ast.Name) and c.func.id == '_wrap_method' and c.args:
+                    out.update(ev(c.args[0]) or ())
+                elif isinstance(c.func, ast.Name) and c.func.id == 'setattr' and len(c.args) >= 2:
+                    out.update(ev(c.args[1]) or ())
+                elif isinstance(c.func, ast.Attribute) and c.func.attr in ('append', 'add') and isinstance(c.func.value, ast.Name) and len(c.args) == 1:
+                    r = ev(c.args[0])
+                    if r is not None:
+                        env[c.func.value.id] = env.get(c.func.value.id, set()) | r
+    run(body)
+    return out
+
+
 def r22_closure(ctx):
     R = 'R22'
     repo = ctx.repo
@@ -331,17 +403,7 @@ def r22_closure(ctx):
     ctx.check(rat.base_names == ['Fraction'], R, rat.node, rat.qualname, 'Rational is exact: a fractions.Fraction subclass',
               'class Rational(Fraction)', 'Rational bases are %s' % rat.base_names, nontrivial=False)
     rm = repo.module('droop.values.rational')
-    wrapped = set()
-    for st in rm.tree.body:
-        if isinstance(st, ast.For) and isinstance(st.iter, ast.Call) and isinstance(st.iter.func, ast.Attribute) \
-                and st.iter.func.attr == 'split' and const_str(st.iter.func.value) is not None:
-            words = const_str(st.iter.func.value).split()
-            for s in st.body:
-                if isinstance(s, ast.Expr) and isinstance(s.value, ast.Call) and isinstance(s.value.func, ast.Name) \
-                        and s.value.func.id == '_wrap_method' and isinstance(s.value.args[0], ast.BinOp):
-                    fmt = const_str(s.value.args[0].left)
-                    for w in words:
-                        wrapped.add(fmt % w)
+    wrapped = _installed_names(rm.tree.body)
     need(wrapped, 'R22: wrapped dunder list of rational.py not found')
     # the wrapper converts the Fraction result back to Rational
     wf = repo.funcs.get('droop.values.rational._wrap_method')
@@ -350,6 +412,13 @@ def r22_closure(ctx):
            '%s setattr(Rational, method, x)')
     got = alpha_body(wf.node)
     okw = got in (alpha_src(ref % ' x.__name__ = method\n'), alpha_src(ref % ''))
+    if not okw:
+        # the wrapper returned to the caller, which installs it: `setattr(Rational, name, _wrap_method(name))` at module level
+        ref2 = 'def _wrap_method(method):\n fraction_method = getattr(Fraction, method)\n def x(*args):\n  return Rational(fraction_method(*args))\n%s return x'
+        if got in (alpha_src(ref2 % ' x.__name__ = method\n'), alpha_src(ref2 % '')):
+            inst = [c for c in ast.walk(rm.tree) if isinstance(c, ast.Call) and isinstance(c.func, ast.Name) and c.func.id == 'setattr' and len(c.args) == 3]
+            okw = bool(inst) and all(unparse(c.args[0]) == 'Rational' and isinstance(c.args[2], ast.Call) and unparse(c.args[2].func) == '_wrap_method'
+                                     and len(c.args[2].args) == 1 and unparse(c.args[2].args[0]) == unparse(c.args[1]) for c in inst)
     ctx.check(okw, R, wf.node, wf, 'wrapped Fraction operators return Rational', 'return Rational(fraction_method(*args))',
               '_wrap_method no longer converts results to Rational')
     needed = {}
@@ -398,8 +467,12 @@ def r22_closure(ctx):
         builds = [n for n in rn.own_nodes() if isinstance(n, ast.Call) and unparse(n.func) in ('Fraction.__new__', 'super().__new__', 'super(Rational, cls).__new__')]
         others = [n for n in rn.own_nodes() if isinstance(n, ast.Call) and unparse(n.func).endswith('__new__') and n not in builds]
         stores = [n for n in rn.own_nodes() if isinstance(n, ast.Attribute) and isinstance(n.ctx, ast.Store)]
-        okn = len(builds) == 1 and not others and not stores and len(rets) == 1 and isinstance(rets[0].value, ast.Name) \
+        okn = len(builds) == 1 and not others and not stores and len(rets) == 1 and (isinstance(rets[0].value, ast.Name) or rets[0].value is builds[0]) \
             and len(builds[0].args) == 3 and unparse(builds[0].args[1]) == rn.params[1]
+        if okn and isinstance(rets[0].value, ast.Name):
+            # the returned local is the object just built
+            defs_ = rn.assigns().get(rets[0].value.id, [])
+            okn = len(defs_) == 1 and defs_[0][0] is builds[0]
         ctx.check(okn, R, rn.node, rn, 'every Rational is constructed by Fraction.__new__ (sign on the numerator, lowest terms)',
                   'self = Fraction.__new__(cls, numerator, denominator); return self',
                   'Rational.__new__ builds values without Fraction.__new__ on some path (or stores numerator/denominator itself): '
@@ -426,7 +499,19 @@ def r22_closure(ctx):
     for k, w in want.items():
         f = rat.methods.get(k)
         rets = [n for n in f.own_nodes() if isinstance(n, ast.Return)] if f else []
-        ctx.check(len(rets) == 1 and unparse(rets[0].value) == w, R, f.node if f else rat.node, f or rat.qualname,
+        same = len(rets) == 1 and unparse(rets[0].value) == w
+        if not same and f is not None:
+            # the same expression built through locals
+            from ..symret import guarded_returns
+            gr = guarded_returns(f.node)
+            pn = {p_: 'arg%d' % (i_ + 1) for i_, p_ in enumerate([x for x in f.params if x not in ('cls', 'self')][:3])}
+            if gr is not None and len(gr) == 1 and gr[0][1] is not None:
+                e_ = gr[0][1]
+                for x_ in ast.walk(e_):
+                    if isinstance(x_, ast.Name) and x_.id in pn:
+                        x_.id = pn[x_.id]
+                same = not gr[0][0] and unparse(e_) == w
+        ctx.check(same, R, f.node if f else rat.node, f or rat.qualname,
                   'Rational.%s is the exact operation (rounding argument ignored)' % k, w, 'Rational.%s is `%s`' % (k, unparse(rets[0].value) if rets else None))
     # (c) `//` between two values: Rational.__floordiv__ is the integer floor; only rules that force a
     #     non-rational arithmetic may use it
@@ -894,32 +979,77 @@ def r25_printing(ctx):
         impure += [n for n in f.own_nodes() if isinstance(n, (ast.Global, ast.Nonlocal))]
         ctx.check(not impure, R, impure[0] if impure else f.node, f, 'printing a value does not alter it (or anything else)',
                   'no attribute/item store in %s.__str__' % cls.name, '__str__ stores to `%s`' % (unparse(impure[0]) if impure else ''))
-        # (c) sign-safe split: operands of // and % feeding the format are non-negative
-        fmts = [n for n in f.own_nodes() if isinstance(n, ast.BinOp) and isinstance(n.op, ast.Mod) and isinstance(n.right, ast.Tuple)]
-        need(fmts, '%s.__str__: no `fmt %% (int part, fraction part)` found' % cls.name)
-        for fm in fmts:
-            for part in fm.right.elts:
-                names = [x for x in ast.walk(part) if isinstance(x, ast.Name) and isinstance(x.ctx, ast.Load)
-                         and x.id not in ('self', 'cls', cls.name)]
-                ok = bool(names) and all(_nonneg(f, x.id, fm.lineno) for x in names)
-                ctx.check(ok, R, part, f, 'the integer/fraction split for printing is applied to a magnitude (sign handled separately)',
-                          '`%s`: %s is the result of abs(...)' % (unparse(part), ', '.join(sorted(set(x.id for x in names)))),
-                          '`%s` splits a value of unknown sign with floor-based // and %%: -0.5 prints as -1.500' % unparse(part))
-            # the sign is prefixed
-            st = repo.enclosing_stmt(fm)
-            txt = unparse(st)
-        signs = [n for n in f.own_nodes() if isinstance(n, ast.Assign) and isinstance(n.value, ast.IfExp)
-                 and const_str(n.value.body) == '-' and const_str(n.value.orelse) == '']
-        rets = [n for n in f.own_nodes() if isinstance(n, ast.Return)]
-        if cls.qualname != FIXED or True:
-            signed = [r for r in rets if isinstance(r.value, ast.BinOp) and isinstance(r.value.op, ast.Add)
-                      and isinstance(r.value.left, ast.Name) and signs and r.value.left.id == signs[0].targets[0].id]
-            plain = [r for r in rets if r not in signed]
-            # plain returns are allowed only for the integer fast path `return str(v)`
-            okp = all(isinstance(r.value, ast.Call) and unparse(r.value.func) == 'str' and len(r.value.args) == 1 and isinstance(r.value.args[0], ast.Name)
-                      and r.value.args[0].id in f.assigns() for r in plain)
-            ctx.check(bool(signs) and bool(signed) and okp, R, f.node, f, 'a negative value is printed with a minus sign in front of its magnitude',
-                      "sign = '-' if v < 0 else ''; return sign + <formatted magnitude>", 'the sign is not prefixed to the formatted magnitude')
+        # (c) sign-safe printing, decided on the (conditions -> returned expression) summary of __str__ (locals substituted, conditional
+        # expressions split): on a path where the printed quantity X is negative the result is '-' + fmt % (parts of abs(X)); where it
+        # is not, fmt % (parts of X or abs(X)) with an empty prefix; the parts fed to // and % are never of unknown sign.
+        from ..symret import guarded_returns, _canon_cond
+        gr = guarded_returns(f.node, deep_ifexp=True)
+        if gr is None:
+            ctx.unrecognised(R, f.node, f, 'the way %s.__str__ builds its result' % cls.name, 'not a branching of returns over simple locals')
+            continue
+        nfmt = 0
+        for conds, e, ret in gr:
+            if e is None:
+                ctx.bad(R, ret or f.node, f, 'a negative value is printed with a minus sign in front of its magnitude', '__str__ can return None')
+                continue
+            neg_of, nonneg_of = set(), set()
+            for t_, tr_ in conds:
+                k_, v_ = _canon_cond(t_, tr_, unparse)
+                if k_[0] == '<' and k_[2] == '0':
+                    (neg_of if v_ else nonneg_of).add(k_[1])
+            prefix, rest = None, e
+            if isinstance(e, ast.BinOp) and isinstance(e.op, ast.Add) and isinstance(e.left, ast.Constant) and isinstance(e.left.value, str):
+                prefix, rest = e.left.value, e.right
+            if isinstance(rest, ast.Call) and unparse(rest.func) == 'str' and len(rest.args) == 1 and prefix in (None, ''):
+                ctx.ok(R, ret, f, 'a negative value is printed with a minus sign in front of its magnitude', 'integer fast path: str(<stored integer>)', nontrivial=False)
+                continue
+            if isinstance(rest, ast.BinOp) and isinstance(rest.op, ast.Mod) and isinstance(rest.right, ast.Call) and isinstance(rest.right.func, ast.Name) \
+                    and rest.right.func.id == 'divmod' and len(rest.right.args) == 2:
+                a_, b_ = rest.right.args
+                rest = ast.BinOp(left=rest.left, op=ast.Mod(), right=ast.Tuple(elts=[ast.BinOp(left=a_, op=ast.FloorDiv(), right=b_),
+                                                                                     ast.BinOp(left=a_, op=ast.Mod(), right=b_)], ctx=ast.Load()))
+            if not (isinstance(rest, ast.BinOp) and isinstance(rest.op, ast.Mod) and isinstance(rest.right, ast.Tuple)):
+                ctx.unrecognised(R, ret or f.node, f, 'the way %s.__str__ builds its result' % cls.name, '`%s` is not `[sign +] fmt %% (parts)`' % unparse(e)[:80])
+                continue
+            nfmt += 1
+            mags = set()
+
+            def nonneg(x):
+                if unparse(x) in nonneg_of:
+                    mags.add(unparse(x))
+                    return True
+                if isinstance(x, ast.Call) and isinstance(x.func, ast.Name) and x.func.id == 'abs' and len(x.args) == 1:
+                    mags.add(unparse(x.args[0]))
+                    return True
+                if isinstance(x, ast.UnaryOp) and isinstance(x.op, ast.USub) and unparse(x.operand) in neg_of:
+                    mags.add(unparse(x.operand))        # -X on a path where X < 0
+                    return True
+                if isinstance(x, ast.BinOp) and isinstance(x.op, (ast.FloorDiv, ast.Mod)) and isinstance(x.right, ast.Attribute):
+                    return nonneg(x.left)
+                if isinstance(x, ast.Constant) and isinstance(x.value, int) and x.value >= 0:
+                    return True
+                if unparse(x) in nonneg_of:
+                    mags.add(unparse(x))
+                    return True
+                return False
+            bad_parts = [unparse(p_) for p_ in rest.right.elts if not nonneg(p_)]
+            ctx.check(not bad_parts, R, ret, f, 'the integer/fraction split for printing is applied to a magnitude (sign handled separately)',
+                      '%d part(s), each a // or %% of abs(...) (or of a quantity tested non-negative on this path)' % len(rest.right.elts),
+                      '`%s` splits a value of unknown sign with floor-based // and %%: -0.5 prints as -1.500' % (bad_parts[0] if bad_parts else ''))
+            if bad_parts:
+                continue
+            if neg_of:
+                oks = prefix == '-' and mags <= neg_of
+            elif nonneg_of:
+                oks = prefix in ('', None) and mags <= nonneg_of
+            else:
+                oks = False         # the magnitude is printed on a path that never looked at the sign
+            ctx.check(oks, R, ret, f, 'a negative value is printed with a minus sign in front of its magnitude',
+                      "prefix %r on the path where %s is %s" % (prefix, ', '.join(sorted(neg_of or nonneg_of)), 'negative' if neg_of else 'not negative'),
+                      'the sign is not prefixed to the formatted magnitude (prefix %r on a path where %s)'
+                      % (prefix, ('%s < 0' % ', '.join(sorted(neg_of))) if neg_of else (('%s >= 0' % ', '.join(sorted(nonneg_of))) if nonneg_of else 'the sign was never tested')))
+        if nfmt == 0:
+            raise AnalysisError('%s.__str__: no `fmt %% (int part, fraction part)` found' % cls.name)
     # (b) half-up: the constant added before the floor division is defined by initialize() as half the divisor
     for qn in (FIXED, GUARDED):
         cls = repo.cls(qn)
@@ -973,7 +1103,7 @@ def r25_printing(ctx):
         # the integer/fraction split uses 10 ** display
         sc = [k for k, v in defs.items() if len(v) == 1 and unparse(v[0]) == '10 ** cls.display']
         used = [x for x in s_.own_nodes() if isinstance(x, ast.Attribute) and cls.mangle(x.attr) in sc]
-        ctx.check(bool(sc) and len(used) >= 2, R, s_.node, s_, '%s.__str__ splits at 10 ** display' % cls.name,
+        ctx.check(bool(sc) and len(used) >= 1, R, s_.node, s_, '%s.__str__ splits at 10 ** display' % cls.name,
                   'integer part // and fraction %% use cls.%s = 10 ** cls.display' % (sc[0].split('__')[-1] if sc else '?'),
                   'the display split does not use 10 ** cls.display', nontrivial=False)
     gd = repo.cls(GUARDED)
@@ -1037,19 +1167,39 @@ def r25_printing(ctx):
                 if isinstance(n, ast.Call) and isinstance(n.func, ast.Name) and n.func.id == 'isinstance' and len(n.args) == 2 \
                         and any(isinstance(x, (ast.Attribute, ast.Name)) and (getattr(x, 'attr', None) or getattr(x, 'id', None)) in ('Guarded', 'Fixed', 'Rational')
                                 for x in ast.walk(n.args[1])):
-                    in_encoder = g.name == 'default' and g.owner_class is not None and g.owner_class.qualname.startswith('droop.record.ElectionRecord.json.')
+                    in_encoder = g.name == 'default' and g.owner_class is not None and (g.owner_class.qualname.startswith('droop.record.ElectionRecord.json.') or any(b_ in ('json_.JSONEncoder', 'json.JSONEncoder', 'JSONEncoder') for b_ in g.owner_class.base_names))
                     n_r += 1
                     ctx.check(in_encoder, R, n, g, 'renderings do not special-case an arithmetic class (the JSON encoder, which returns str(obj), excepted)',
                               'isinstance test in the JSON encoder\'s default()', '`%s` in %s: one class of values is rendered differently here than elsewhere'
                               % (unparse(n), g.qualname), nontrivial=False)
     js = repo.func('droop.record.ElectionRecord.json')
-    enc = [c for c in repo.classes.values() if c.qualname.startswith('droop.record.ElectionRecord.json.')]
+    # the encoder class handed to json.dumps(cls=...): nested in json() or at module level
+    enc = []
+    for c_ in js.own_nodes():
+        if isinstance(c_, ast.Call) and isinstance(c_.func, ast.Attribute) and c_.func.attr in ('dumps', 'dump'):
+            for k_ in c_.keywords:
+                if k_.arg == 'cls' and isinstance(k_.value, ast.Name):
+                    enc += [c for c in repo.classes.values() if c.name == k_.value.id and c.module is js.module]
     okj = False
+    from ..symret import guarded_returns
     for c in enc:
         d = c.methods.get('default')
         if d is not None:
-            rets = [unparse(r.value) for r in d.own_nodes() if isinstance(r, ast.Return)]
-            okj = 'str(obj)' in rets and 'str(values.rational.Rational(obj))' in rets
+            gr = guarded_returns(d.node)
+            if gr is None:
+                rets = [unparse(r.value) for r in d.own_nodes() if isinstance(r, ast.Return) and r.value is not None]
+            else:
+                rets = []
+                for conds, e, _r in gr:
+                    # a path that needs `str(...) is None` cannot be taken
+                    dead = any(isinstance(t_, ast.Compare) and len(t_.ops) == 1 and isinstance(t_.ops[0], (ast.Is, ast.IsNot))
+                               and isinstance(t_.left, ast.Call) and unparse(t_.left.func) == 'str' and (isinstance(t_.ops[0], ast.Is) == tr_)
+                               and isinstance(t_.comparators[0], ast.Constant) and t_.comparators[0].value is None for t_, tr_ in conds)
+                    if not dead and e is not None:
+                        rets.append(unparse(e))
+            p_obj = d.params[1] if len(d.params) > 1 else 'obj'
+            others = [r for r in rets if r not in ('str(%s)' % p_obj, 'str(values.rational.Rational(%s))' % p_obj) and '.default(' not in r]
+            okj = 'str(%s)' % p_obj in rets and 'str(values.rational.Rational(%s))' % p_obj in rets and not others
     ctx.check(okj, R, js.node, js, 'the JSON rendering uses the printed form of values', 'encoder default(): return str(obj)',
               'JSON encoder no longer stringifies values with str()')
 
